@@ -43,7 +43,7 @@ func origin(v ssa.Value, conv bool, depth int, seen map[*ssa.Phi]bool) ssa.Value
 			if cell == nil {
 				return v
 			}
-			st := uniqueStore(cell)
+			st := uniqueStoreFor(cell, x)
 			if st == nil {
 				st = localReachingStore(cell, x)
 			}
@@ -628,4 +628,66 @@ func readOnlyAddr(a ssa.Value) bool {
 		}
 	}
 	return true
+}
+
+// uniqueStoreFor: the cell's only store, provided it certainly executes
+// before the load (otherwise the load may see the zero value): the store is
+// in the cell's own function and dominates the load, or -- for a load inside a
+// closure -- dominates every MakeClosure that captures the cell.
+func uniqueStoreFor(cell *ssa.Alloc, load *ssa.UnOp) *ssa.Store {
+	st := uniqueStore(cell)
+	if st == nil || st.Parent() != cell.Parent() {
+		return nil
+	}
+	if load.Parent() == cell.Parent() {
+		if instrDominates(st, load) {
+			return st
+		}
+		return nil
+	}
+	ok := true
+	found := false
+	for _, b := range cell.Parent().Blocks {
+		for _, in := range b.Instrs {
+			mc, isMC := in.(*ssa.MakeClosure)
+			if !isMC {
+				continue
+			}
+			for _, bnd := range mc.Bindings {
+				if bnd == ssa.Value(cell) {
+					found = true
+					if !instrDominates(st, mc) {
+						ok = false
+					}
+				}
+			}
+		}
+	}
+	if found && ok {
+		return st
+	}
+	// captured transitively (closure inside closure): accept when the store
+	// is in the entry block of the cell's function
+	if !found && st.Block() == cell.Parent().Blocks[0] {
+		return st
+	}
+	return nil
+}
+
+func instrDominates(a, b ssa.Instruction) bool {
+	if a.Parent() != b.Parent() {
+		return false
+	}
+	if a.Block() == b.Block() {
+		for _, in := range a.Block().Instrs {
+			if in == a {
+				return true
+			}
+			if in == b {
+				return false
+			}
+		}
+		return false
+	}
+	return a.Block().Dominates(b.Block())
 }
